@@ -129,11 +129,12 @@ Definition cancel_send (s : state) (chain : bytes) (id : N) (sender : bytes) : r
             Ok (if 0 <? total then credit s [109;104;117;98;50]%N denom total else s)
           else if beqb (s_refund_chain e) b_hub then
             Ok (if 0 <? total then credit s sender denom total else s)
-          else
-            let s' := if 0 <? total then credit s (p_temp (st_params s)) denom total else s in
+          else if 0 <? total then
+            let s' := credit s (p_temp (st_params s)) denom total in
             let* (s'', _) := create_send s' (s_refund_chain e) (p_temp (st_params s)) (s_refund_addr e)
                                          denom total 0 0 [35]%N [] [] in
-            Ok s'' in
+            Ok s''
+          else Ok s in      (* nothing to send back (fix: zero-value foreign-origin transfer) *)
         let s2 := set_tx_status s1 (s_txhash e) ST_REFUNDED [] in
         Ok (set_pool s2 (pool_delete e (st_pool s2)))
   end.
@@ -275,7 +276,6 @@ Definition fee_refunds (s : state) (b : batch) (ti : token_info) (fee_left avg :
                  let c := conv e in
                  if c <? avg then Ok st
                  else
-                   if negb (fits256 (fee_left * c)) then Panic 16 else      (* Int.Mul overflow *)
                    let to_refund := (fee_left * c) / good in
                    if negb (beqb (s_refund_chain e) b_minter) then Ok st
                    else if to_refund <=? 0 then Ok st
